@@ -317,7 +317,9 @@ func (p *Pool) Put(x interface{}) {
 				s.Fail("pool/double-put", "object of type %T Put twice without a Get in between", x)
 			}
 			pPoolDoublePut.Hit()
-			return
+			// the duplicate is kept, as sync.Pool keeps it: two later Gets can then hand out
+			// the same object, and the checks see the consequences
+			break
 		}
 	}
 	drop := false
